@@ -234,6 +234,17 @@ def _check_merchant_migration(config: dict, config_dir: str, quiet: bool = False
 
     # New .rules format
     if merchants_format == 'new':
+        if merchants_file.endswith('.rules'):
+            # get_all_rules() swallows loader errors; a rules file that cannot be
+            # loaded must be reported to the user, not treated as "no rules".
+            try:
+                from pathlib import Path
+                from .merchant_engine import load_merchants_file
+                load_merchants_file(Path(merchants_file), match_mode=rule_mode)
+            except Exception as e:
+                print(f"Error: could not load merchant rules from {merchants_file}: {e}", file=sys.stderr)
+                print("Fix the rules file (run 'tally diag' for details) and try again.", file=sys.stderr)
+                sys.exit(1)
         rules = get_all_rules(merchants_file, match_mode=rule_mode)
         if not quiet:
             print(f"Loaded {len(rules)} categorization rules from {merchants_file}")
